@@ -76,6 +76,7 @@ harness(void)
 	if (V_VAR) params[np - 1].flags |= PARAMVAR;
 	mac.kind = MACROFUNC; mac.name = "f"; mac.param = params; mac.nparam = np; mac.hide = false; mac.arg = 0;
 	macrodepth = 0;
+	{ IN(size_t, in_junk0); IN(size_t, in_junk1); argbuf[0].ntoken = in_junk0; argbuf[1].ntoken = in_junk1; }  /* fresh storage is not zeroed */
 
 	/* what 6.10.3p11/p12 say about this token sequence */
 	for (i = 0; i < NS; i++) {
